@@ -130,6 +130,11 @@ def run_case(case):
                         refs.set_path(msg, var, rng.choice([1, 42, 9007199254740993]))
                 classes.append(cls)
                 rest_ok = True
+                if m.name == "PrimaryPlain" and t % 2:
+                    # values that would satisfy an additional binding must still produce no header
+                    msg.name = "projects/" + rng.choice(PLAIN)
+                    classes = ["additional-binding-matches"]
+                    rest_ok = False         # REST would legitimately pick that binding's URL; the header rule is judged on gRPC
                 if t == TRIALS - 1:
                     # gRPC-only trial with empty / unset variables (REST could not transcode it)
                     for var, pat in refs.path_vars(tmpl):
